@@ -164,3 +164,6 @@ Fixpoint tr_mapS {A B S} (f : S -> A -> mres B S) (l : list A) (s : S) : mres (l
           end
       end
   end.
+
+(** [s * n] / [n * s] for a str (or list) and an int: [n] copies; a count [n <= 0] gives the empty sequence *)
+Definition tr_repeat {A} (s : list A) (n : Z) : list A := concat (repeat s (Z.to_nat n)).
